@@ -1385,7 +1385,11 @@ mismatch between values and axes""".format(inferred, self.values.shape)
         """ initialize a DimArray from a json-compatible dictionary
         """
         jsondict = jsondict.copy()
-        dima = cls(jsondict.pop('values', None), 
+        values = jsondict.pop('values', None)
+        shape = jsondict.get('shape')
+        if values is not None and shape is not None and 0 in shape:
+            values = np.asarray(values).reshape(shape) # nested empty lists do not carry the shape
+        dima = cls(values, 
                    axes=jsondict.pop('labels', None), 
                    dims=jsondict.pop('dims', None))
         if 'meta' in jsondict:
